@@ -150,3 +150,33 @@ Proof.
   destruct e as [x|]; [destruct (truthy x)|]; destruct u as [y|]; try destruct (truthy y); destruct r as [z|]; try destruct (truthy z); reflexivity.
 Qed.
 Print Assumptions binding_lookup_order.
+
+(** ** tie by translation (regenerated on every run): harness/gen_grainsrc.py evaluates the rate_* methods of the dust-model
+    classes of /repo symbolically (grain symbols looked up on live instances) into coq/gen/GrainLive.v; the translated
+    strings ARE the templates of the model the law theorems above are about (by computation).  A change to a rate_* method
+    changes GrainLive.v, and this theorem is re-checked against what the code says now. *)
+From NaunetGen Require Import GrainLive.
+Theorem live_grain_sources : forall ka,
+  base_rate_depletion_src ka = base_depletion ka /\
+  hh93_rate_depletion_src ka = hh93_depletion ka /\
+  hh93_rate_thermal_desorption_src = hh93_thermal /\
+  hh93_rate_photon_desorption_src = hh93_photon /\
+  hh93_rate_cosmicray_desorption_src = hh93_cosmicray /\
+  hh93_rate_electron_capture_src = hh93_ecapture /\
+  hh93_rate_recombination_src ka = hh93_recombination ka /\
+  hh93__rate_surface_src ka =
+    [("re1.name in ['GH', 'GH2'] and re2.name in ['GH', 'GH2']", hh93_surface ka HBoth); ("re1.name in ['GH', 'GH2']", hh93_surface ka HFirst);
+     ("re2.name in ['GH', 'GH2']", hh93_surface ka HSecond); ("else", hh93_surface ka HNone)]%string /\
+  hh93_rate_surface_twobody_src = [N 999] /\
+  hh93_rate_reactive_desorption_src = (tx "opt_rcd * branch * " ++ [N 999])%list /\
+  rr07_rate_depletion_src ka =
+    [("spec.is_electron", rr07_depletion ka DElectron); ("spec.charge == 0", rr07_depletion ka DNeutral); ("else", rr07_depletion ka DIon)]%string /\
+  rr07_rate_photon_desorption_src = rr07_photon /\
+  rr07_rate_cosmicray_desorption_src = rr07_cosmicray /\
+  rr07_rate_h2_desorption_src = rr07_h2 /\
+  rr07x_rate_thermal_desorption_src = rr07x_thermal /\
+  (* the photodesorption yield used when the species carries none *)
+  hh93_rate_photon_desorption_src_yield_default = ["0.001"]%string /\ rr07_rate_photon_desorption_src_yield_default = ["0.1"]%string /\
+  base_rate_depletion_src_guards = ["reac.reaction_type != ReactionType.GRAIN_FREEZE"; "len(reac.reactants) != 1"]%string.
+Proof. intro ka. repeat split; reflexivity. Qed.
+Print Assumptions live_grain_sources.
